@@ -40,6 +40,9 @@ def configurations():
         ("fields", dict(picture_coding_mode=1, frame_height=8, source_sampling=1)),
         ("explicit-default-matrix", dict(wavelet_index=1, dwt_depth=2, quantization_matrix="explicit-default")),
         ("symmetric-v3", dict(wavelet_index=1, dwt_depth=1, fragment_slice_count=2)),
+        # the same features given as plain integers instead of enum members
+        ("ld-plain-ints", dict(profile=0, picture_bytes=40, plain_ints=True)),
+        ("hq-plain-ints", dict(plain_ints=True)),
     ]
 
 
